@@ -261,14 +261,20 @@ def configArgs (content : Bytes) : List Bytes := argsOfLines [] (fileLines conte
 
 /-- `read_config_file(Cursor::new(content), "")` (content: valid UTF-8) -/
 def readConfigFile (content : Bytes) (e : Env) : Outcome Env :=
-  parseArgsWith Gen.flagTable (configArgs content) e
+  if (configArgs content).any (fun a => a.contains 0) then .err   -- F72: a synthesised argument with a NUL: `Err` before any setting is applied
+  else parseArgsWith Gen.flagTable (configArgs content) e
 
 /-- `override_environment_variables_from_config(None)`: `none` = no readable `rws.config.toml`
     in the working directory; a file that is not UTF-8 makes `read_to_string` fail: same. -/
 def overrideFromConfig (file : Option Bytes) (e : Env) : Outcome Env :=
   match file with
   | none => .ok e
-  | some content => if validUtf8 content then readConfigFile content e else .ok e
+  | some content =>
+    if validUtf8 content then
+      match readConfigFile content e with
+      | .err => .ok e          -- `let _ = read_config_file(..)`: the error is dropped, nothing was applied
+      | o => o
+    else .ok e
 
 /-! ### bootstrap, Server::setup -/
 
